@@ -1779,6 +1779,62 @@ def gen_bucket_programs(r, n):
     return progs
 
 
+def gen_bucket_shape_programs():
+    """Fixed bucket contents that random histories and random damage hit too rarely - all judged by the reference
+    decoder (`mon_bucket`): a FOREIGN key's tombstone after the key's record; a byte-identical record appearing twice
+    with something else in between (explicit equal times); damage confined to the FIRST line (bit 7 of the leading
+    newline, garbage instead of the first record's newline, a bucket that does not start with a newline); a good
+    record followed by a newer record of the same key whose integrity names an unknown algorithm (the fall-back);
+    an empty bucket file."""
+    key = "k"
+    A = (key, L.sri_of("sha256", b"aaa"), 1, 3, None, None)
+    B = (key, L.sri_of("sha512", b"bb"), 2, 2, {"v": 2}, b"raw")
+    T = (key, None, 3, 0, None, None)
+    F = ("foreign", L.sri_of("sha256", b"f"), 5, 1, None, None)
+    FT = ("foreign", None, 6, 0, None, None)
+    ODD = (key, "sha3-256-" + "QUJD" * 11, 9, 3, None, None)
+    ODD2 = (key, "blake3-AAAA", 9, 3, None, None)
+    fr = rec_frame
+    shapes = [
+        ("foreign-tombstone-last", fr(A) + fr(FT)),
+        ("foreign-tombstone-between", fr(F) + fr(A) + fr(FT) + fr(F)),
+        ("foreign-live-last", fr(A) + fr(F)),
+        ("key-tombstone-then-foreign", fr(A) + fr(T) + fr(F)),
+        ("identical-again", fr(A) + fr(B) + fr(A)),
+        ("identical-after-tombstone", fr(A) + fr(T) + fr(A)),
+        ("identical-tombstones", fr(T) + fr(A) + fr(T)),
+        ("identical-adjacent", fr(A) + fr(A) + fr(B)),
+        ("first-newline-bit7", b"\x8a" + fr(A)[1:] + fr(B)),
+        ("first-line-garbage", b"\xff\xfe\x00garbage instead of the first record" + fr(B)),
+        ("first-line-garbage-then-two", b"\xc3" + fr(A)[1:] + fr(B) + fr(T)),
+        ("no-leading-newline", fr(A)[1:] + fr(B)),
+        ("only-record-no-leading-newline", fr(A)[1:]),
+        ("odd-after-good", fr(A) + fr(ODD)),
+        ("odd-after-good-2", fr(A) + fr(B) + fr(ODD2)),
+        ("odd-after-tombstone", fr(A) + fr(T) + fr(ODD)),
+        ("good-after-odd", fr(ODD) + fr(B)),
+        ("empty-file", b""),
+        ("newline-only", b"\n"),
+    ]
+    progs = []
+    bp = bucket_path(key.encode())
+    for name, data in shapes:
+        ops = [f"put {bp} {hx(data)}"]
+        look = []
+        for fl in "sa":
+            ops.append(f"metadata {fl} c0 {hx(key.encode())}"); look.append(len(ops) - 1)
+        ops.append("list c0"); look.append(len(ops) - 1)
+        ops.append(f"index_insert s c0 {hx(key.encode())} sri={hx(L.sri_of('sha256', b'appended').encode())} time=777 size=8 meta=- raw=-")
+        ins = len(ops) - 1
+        for fl in "sa":
+            ops.append(f"metadata {fl} c0 {hx(key.encode())}")
+        ops.append("list c0")
+        ops.append(f"cat {bp}")
+        progs.append(Program(f"shape-{name}", ops, tags={"bucket": data, "key": key, "look": look, "ins": ins,
+                                                          "damage": "shape " + name, "variety": ("shape", name)}))
+    return progs
+
+
 def ref_meta_tuple(rec):
     return (rec["key"], L.sri_parse(rec["integrity"]), rec["time"], rec["size"], rec["metadata"],
             None if rec.get("raw_metadata") is None else bytes(rec["raw_metadata"]))
@@ -1821,11 +1877,10 @@ def mon_bucket(rr):
                     out.append(Failure("list_failed", j, f"{stage}: {norm(rr.impl[j])[:60]}", sig=dict(sig, op="list")))
                     continue
                 got = sorted((impl_meta_tuple(parse_meta(x)) for x in items if x.startswith("meta ")), key=repr)
-                live = {}
-                for rec in recs:
-                    live[rec["key"]] = rec
-                wantl = sorted((ref_meta_tuple(v) for v in live.values()
-                                if v.get("integrity") is not None and L.sri_parse(v["integrity"]) is not None), key=repr)
+                # a key is listed iff a lookup finds it, with the entry the lookup finds (records whose integrity
+                # names no known algorithm count for neither: the entry before them stays current)
+                live = {rec["key"]: L.lookup(recs, rec["key"]) for rec in recs}
+                wantl = sorted((ref_meta_tuple(v) for v in live.values() if v is not None), key=repr)
                 if got != wantl:
                     out.append(Failure("damage_not_contained", j, f"{stage} ({t['damage']}): listing differs from what the undamaged records imply",
                                        sig=dict(sig, op="list")))
